@@ -497,7 +497,11 @@ func vC02Aim(r *vRand, q *vC02Req, ps []conf.AuthInternalUserPermission) string 
 
 type vC02Tok struct {
 	s     string
-	valid bool
+	valid bool // must verify whatever the issuer/audience settings are (key, alg, times, JWKS, well-typed iss/aud)
+	iss   string
+	aud   []string
+	issOK bool // label only: iss satisfies the case's issuer setting (the Coq side re-derives this from iss)
+	audOK bool
 	perms []conf.AuthInternalUserPermission
 	has   bool // perms is meaningful (claim present in a decodable form)
 	sub   string
@@ -509,7 +513,8 @@ func (tk vC02Tok) coq(y *vC02Syms) string {
 	if tk.has {
 		p = cqOpt(true, vC02CoqPerms(tk.perms))
 	}
-	return cqPair(y.bytes(tk.s), cqApp("TInfo", cqBool(tk.valid), p, cqBytes(tk.sub)))
+	return cqPair(y.bytes(tk.s), cqApp("TInfo", cqBool(tk.valid), cqBytes(tk.iss),
+		cqListOf(tk.aud, func(a string) string { return cqBytes(a) }), p, cqBytes(tk.sub)))
 }
 
 func vC02B64(v any) string {
@@ -524,44 +529,179 @@ type vC02JwtCfg struct {
 	claimKey, issuer, audience string
 }
 
+// ---- iss / aud claim shapes, relative to the configured issuer / audience ----------------------------
+
+var vC02Issuers = []string{"issuer-A", "https://auth.example.com/realms/mtx", "Ünïcode-issuer", "i"}
+var vC02Audiences = []string{"aud-A", "https://mediamtx.example.com/api", "mediamtx", "ä"}
+
+var vC02IssShapes = []string{"absent", "null", "empty", "match", "other", "case", "longer", "shorter", "crossed", "number", "list"}
+var vC02AudShapes = []string{"absent", "null", "empty-list", "empty-string", "list-of-empty", "match", "match-list1", "match-first",
+	"match-last", "match-middle", "match-dup", "other", "other-list", "case", "longer", "shorter", "crossed", "near-list",
+	"number", "number-list"}
+
+func vC02CaseVariant(s string) string {
+	if u := strings.ToUpper(s); u != s {
+		return u
+	}
+	return strings.ToLower(s)
+}
+
+func vC02Shorter(s string) string {
+	rs := []rune(s)
+	return string(rs[:len(rs)-1])
+}
+
+// the iss claim of a shape: whether the member is present, its JSON value, the issuer string a reader of the token gets
+// ("" = none), and whether the value has a JSON type an iss claim cannot have
+func vC02IssClaim(shape string, cfg vC02JwtCfg) (set bool, val any, str string, malformed bool) {
+	ref, cross := cfg.issuer, cfg.audience
+	if ref == "" {
+		ref = "issuer-A"
+	}
+	if cross == "" {
+		cross = "aud-A"
+	}
+	switch shape {
+	case "absent":
+		return false, nil, "", false
+	case "null":
+		return true, nil, "", false
+	case "empty":
+		return true, "", "", false
+	case "match":
+		return true, ref, ref, false
+	case "other":
+		return true, "issuer-B", "issuer-B", false
+	case "case":
+		v := vC02CaseVariant(ref)
+		return true, v, v, false
+	case "longer":
+		return true, ref + "/", ref + "/", false
+	case "shorter":
+		v := vC02Shorter(ref)
+		return true, v, v, false
+	case "crossed":
+		return true, cross, cross, false
+	case "number":
+		return true, 5, "", true
+	case "list":
+		return true, []string{ref}, "", true
+	}
+	panic("iss shape " + shape)
+}
+
+// the aud claim of a shape: presence, JSON value, the audience list a reader of the token gets, ill-typed
+func vC02AudClaim(shape string, cfg vC02JwtCfg) (set bool, val any, list []string, malformed bool) {
+	ref, cross := cfg.audience, cfg.issuer
+	if ref == "" {
+		ref = "aud-A"
+	}
+	if cross == "" {
+		cross = "issuer-A"
+	}
+	l := func(xs ...string) (bool, any, []string, bool) { return true, xs, xs, false }
+	switch shape {
+	case "absent":
+		return false, nil, nil, false
+	case "null":
+		return true, nil, nil, false
+	case "empty-list":
+		return true, []string{}, nil, false
+	case "empty-string":
+		return true, "", []string{""}, false
+	case "list-of-empty":
+		return l("")
+	case "match":
+		return true, ref, []string{ref}, false
+	case "match-list1":
+		return l(ref)
+	case "match-first":
+		return l(ref, "aud-X")
+	case "match-last":
+		return l("aud-X", ref)
+	case "match-middle":
+		return l("aud-X", ref, "aud-Y")
+	case "match-dup":
+		return l(ref, ref)
+	case "other":
+		return true, "aud-B", []string{"aud-B"}, false
+	case "other-list":
+		return l("aud-B", "aud-X", "")
+	case "case":
+		v := vC02CaseVariant(ref)
+		return true, v, []string{v}, false
+	case "longer":
+		return l(ref + "/")
+	case "shorter":
+		v := vC02Shorter(ref)
+		return true, v, []string{v}, false
+	case "crossed":
+		return l(cross)
+	case "near-list":
+		return l(vC02CaseVariant(ref), ref+" ", " "+ref, vC02Shorter(ref))
+	case "number":
+		return true, 7, nil, true
+	case "number-list":
+		return true, []int{1}, nil, true
+	}
+	panic("aud shape " + shape)
+}
+
+// forced choices for the "claims" scenarios; empty strings / false = random
+type vC02Force struct {
+	iss, aud  string // shape names
+	verifying bool   // a kind that verifies and a decodable permission claim: only iss/aud can cause a denial
+}
+
 // build one token of a kind; jwksHasKeys tells whether the served key set contains the good keys
-func vC02MakeToken(r *vRand, e *vC02Env, cfg vC02JwtCfg, perms []conf.AuthInternalUserPermission, jwksHasKeys bool) vC02Tok {
+func vC02MakeToken(r *vRand, e *vC02Env, cfg vC02JwtCfg, perms []conf.AuthInternalUserPermission, jwksHasKeys bool, f vC02Force) vC02Tok {
 	now := time.Now()
 	sub := vPick(r, []string{"somebody", "alice", "", "sübject", "svc-account-7"})
 	claims := jwt.MapClaims{"sub": sub, "exp": now.Add(time.Hour).Unix(), "jti": strconv.Itoa(r.Intn(1 << 20))}
 	if r.Bool() {
 		claims["nbf"] = now.Add(-time.Minute).Unix()
 	}
-	issOK, audOK := true, true
-	switch r.Intn(4) {
-	case 0:
-	case 1:
-		claims["iss"] = "issuer-B"
-		issOK = cfg.issuer == "" || cfg.issuer == "issuer-B"
-	default:
-		claims["iss"] = "issuer-A"
-		issOK = cfg.issuer == "" || cfg.issuer == "issuer-A"
+	issShape, audShape := f.iss, f.aud
+	if issShape == "" {
+		issShape = "match"
+		if r.Chance(2, 5) {
+			issShape = vPick(r, vC02IssShapes)
+		}
+		if cfg.issuer == "" && (issShape == "number" || issShape == "list") { // ill-typed claims only where the setting makes them wrong anyway
+			issShape = "other"
+		}
 	}
-	if _, ok := claims["iss"]; !ok {
-		issOK = cfg.issuer == ""
-	}
-	switch r.Intn(5) {
-	case 0:
-		audOK = cfg.audience == ""
-	case 1:
-		claims["aud"] = "aud-B"
-		audOK = cfg.audience == "" || cfg.audience == "aud-B"
-	case 2:
-		claims["aud"] = []string{"aud-X", "aud-A"}
-		audOK = cfg.audience == "" || cfg.audience == "aud-A" || cfg.audience == "aud-X"
-	default:
-		claims["aud"] = "aud-A"
-		audOK = cfg.audience == "" || cfg.audience == "aud-A"
+	if audShape == "" {
+		audShape = vPick(r, []string{"match", "match", "match-last", "match-first", "match-list1"})
+		if r.Chance(2, 5) {
+			audShape = vPick(r, vC02AudShapes)
+		}
+		if cfg.audience == "" && (audShape == "number" || audShape == "number-list") {
+			audShape = "other"
+		}
 	}
 	tk := vC02Tok{sub: sub, perms: perms, has: true}
+	var malformed bool
+	if set, val, str, bad := vC02IssClaim(issShape, cfg); set || bad {
+		claims["iss"] = val
+		tk.iss, malformed = str, bad
+	}
+	if set, val, list, bad := vC02AudClaim(audShape, cfg); set || bad {
+		claims["aud"] = val
+		tk.aud, malformed = list, malformed || bad
+	}
+	tk.issOK = cfg.issuer == "" || tk.iss == cfg.issuer
+	tk.audOK = cfg.audience == ""
+	for _, a := range tk.aud {
+		tk.audOK = tk.audOK || a == cfg.audience
+	}
 	// the permission claim
 	form := "array"
-	switch k := r.Intn(20); {
+	k := r.Intn(20)
+	if f.verifying {
+		k = r.Intn(15)
+	}
+	switch {
 	case k < 9:
 		claims[cfg.claimKey] = perms
 	case k < 15:
@@ -589,15 +729,30 @@ func vC02MakeToken(r *vRand, e *vC02Env, cfg vC02JwtCfg, perms []conf.AuthIntern
 	}
 	sigOK, timeOK := true, true
 	kind := "good"
-	switch k := r.Intn(40); {
+	k = r.Intn(40)
+	if f.verifying {
+		k = vPick(r, []int{0, 0, 0, 0, 0, 0, 15, 20, 26})
+	}
+	switch {
+	case k < 15:
 	case k < 16:
+		kind = "iat-future" // golang-jwt does not look at iat unless asked to; the property does not either
+		claims["iat"] = now.Add(time.Hour).Unix()
 	case k < 18:
 		kind = "expired"
-		claims["exp"] = now.Add(-time.Hour).Unix()
+		d := vPick(r, []time.Duration{time.Hour, time.Hour, 59 * time.Second, 10 * time.Second, 2 * time.Second})
+		if d < time.Hour {
+			kind = "expired-recently"
+		}
+		claims["exp"] = now.Add(-d).Unix()
 		timeOK = false
 	case k < 20:
 		kind = "not-yet-valid"
-		claims["nbf"] = now.Add(time.Hour).Unix()
+		d := vPick(r, []time.Duration{time.Hour, time.Hour, 90 * time.Second, 20 * time.Second})
+		if d < time.Hour {
+			kind = "not-yet-valid-soon"
+		}
+		claims["nbf"] = now.Add(d).Unix()
 		timeOK = false
 	case k < 21:
 		kind = "no-exp"
@@ -650,6 +805,19 @@ func vC02MakeToken(r *vRand, e *vC02Env, cfg vC02JwtCfg, perms []conf.AuthIntern
 		forged[cfg.claimKey] = all
 		forged["sub"] = "root"
 		forged["exp"] = now.Add(48 * time.Hour).Unix()
+		if cfg.issuer != "" { // the forger also writes the claims the settings ask for
+			forged["iss"] = cfg.issuer
+		}
+		if cfg.audience != "" {
+			forged["aud"] = cfg.audience
+		}
+		forgedIss, forgedAud := tk.iss, tk.aud
+		if cfg.issuer != "" {
+			forgedIss = cfg.issuer
+		}
+		if cfg.audience != "" {
+			forgedAud = []string{cfg.audience}
+		}
 		s = parts[0] + "." + vC02B64(forged) + "." + parts[2]
 		tk.perms, tk.has, tk.sub = all, true, "root"
 		sigOK = false
@@ -667,18 +835,51 @@ func vC02MakeToken(r *vRand, e *vC02Env, cfg vC02JwtCfg, perms []conf.AuthIntern
 			if form != "array" && form != "string" {
 				tk.has, tk.perms = false, nil
 			}
+		} else {
+			tk.iss, tk.aud = forgedIss, forgedAud
 		}
 	}
 	tk.s = s
-	tk.valid = sigOK && timeOK && issOK && audOK && jwksHasKeys
-	tk.kind = kind + "/" + form
-	if !issOK {
+	tk.valid = sigOK && timeOK && jwksHasKeys && !malformed
+	tk.kind = kind + "/" + form + "/iss=" + issShape + "/aud=" + audShape
+	if !tk.issOK {
 		tk.kind += "/wrong-iss"
 	}
-	if !audOK {
+	if !tk.audOK {
 		tk.kind += "/wrong-aud"
 	}
 	return tk
+}
+
+// the "claims" scenarios: every cell is visited in turn, so that each run covers all of them
+type vC02Cell struct{ cfg, iss, aud, vary string }
+
+func vC02Cells() []vC02Cell {
+	var out []vC02Cell
+	okAud := []string{"match", "match-list1", "match-last", "match-first"}
+	for i, s := range vC02IssShapes { // both configured, aud in order, iss varies
+		out = append(out, vC02Cell{"iss+aud", s, okAud[i%len(okAud)], "iss=" + s})
+	}
+	for _, s := range vC02AudShapes { // both configured, iss in order, aud varies
+		out = append(out, vC02Cell{"iss+aud", "match", s, "aud=" + s})
+	}
+	out = append(out, vC02Cell{"iss+aud", "other", "other", "both=other"}, vC02Cell{"iss+aud", "absent", "absent", "both=absent"},
+		vC02Cell{"iss+aud", "crossed", "crossed", "both=crossed"})
+	anyAud := []string{"absent", "other", "match", "empty-string"}
+	for i, s := range vC02IssShapes { // issuer only
+		out = append(out, vC02Cell{"iss", s, anyAud[i%len(anyAud)], "iss=" + s})
+	}
+	for _, s := range []string{"absent", "other", "empty-list", "crossed"} { // ... where aud must not matter
+		out = append(out, vC02Cell{"iss", "match", s, "aud=" + s})
+	}
+	anyIss := []string{"absent", "other", "match", "empty"}
+	for i, s := range vC02AudShapes { // audience only
+		out = append(out, vC02Cell{"aud", anyIss[i%len(anyIss)], s, "aud=" + s})
+	}
+	for _, s := range []string{"absent", "other", "null", "crossed"} { // ... where iss must not matter
+		out = append(out, vC02Cell{"aud", s, "match", "iss=" + s})
+	}
+	return out
 }
 
 // ---- the test -----------------------------------------------------------------------------------
@@ -708,6 +909,8 @@ func TestVerifC02(t *testing.T) {
 	defer closeFn()
 
 	decoys := []string{"tok", "not.a.jwt", "secret", "eyJhbGciOiJub25lIn0.e30.", "a b+c", "ü"}
+	cells := vC02Cells()
+	jwtIdx, cellIdx := 0, 0
 
 	for i := 0; i < n; i++ {
 		switch k := i % 20; {
@@ -806,11 +1009,29 @@ func TestVerifC02(t *testing.T) {
 		default: // ---- jwt method
 			q := vC02RandReq(r)
 			cfg := vC02JwtCfg{claimKey: vPick(r, []string{"mediamtx_permissions", "perms", "my_permission_key"})}
-			if r.Chance(1, 3) {
-				cfg.issuer = "issuer-A"
+			// 40% "claims" scenarios: the cells of vC02Cells in turn (settings x iss shape x aud shape), everything else in
+			// order, so that the iss/aud claims alone decide; the rest: random settings (none / issuer / audience / both)
+			var cell *vC02Cell
+			if m := jwtIdx % 5; m == 0 || m == 2 {
+				cell = &cells[cellIdx%len(cells)]
+				cellIdx++
 			}
-			if r.Chance(1, 3) {
-				cfg.audience = "aud-A"
+			jwtIdx++
+			cfgKind := vPick(r, []string{"", "", "iss", "aud", "iss+aud", "iss+aud"})
+			if cell != nil {
+				cfgKind = cell.cfg
+			}
+			if strings.Contains(cfgKind, "iss") {
+				cfg.issuer = vPick(r, vC02Issuers)
+				if r.Bool() {
+					cfg.issuer = vC02Issuers[0]
+				}
+			}
+			if strings.Contains(cfgKind, "aud") {
+				cfg.audience = vPick(r, vC02Audiences)
+				if r.Bool() {
+					cfg.audience = vC02Audiences[0]
+				}
 			}
 			ex := vC02Perms(r, 1)
 			if r.Chance(2, 3) {
@@ -826,7 +1047,7 @@ func TestVerifC02(t *testing.T) {
 				jwksKind = "empty"
 			}
 			// "easy" scenarios: everything but the token itself is in order, so the token kind alone decides
-			easy := r.Chance(2, 5)
+			easy := r.Chance(1, 3) || cell != nil
 			if easy {
 				jwksKind, ex = "ok", nil
 			}
@@ -838,14 +1059,33 @@ func TestVerifC02(t *testing.T) {
 			for k := 0; easy && intent != "hit" && k < 8; k++ {
 				intent = vC02Aim(r, q, perms)
 			}
+			if cell != nil { // a plain permission the request certainly has (no regexp, no near miss)
+				p := conf.AuthInternalUserPermission{Action: vPick(r, vC01Actions)}
+				if r.Bool() {
+					for p.Path == "" || p.Path[0] == '~' {
+						p.Path = vPick(r, vC01Paths)
+					}
+					q.path = p.Path
+				}
+				q.action = p.Action
+				perms = append([]conf.AuthInternalUserPermission{p}, vC02Perms(r, 1)...)
+				if r.Bool() && len(perms) == 2 {
+					perms[0], perms[1] = perms[1], perms[0]
+				}
+				intent = "hit"
+			}
 			if len(ex) > 0 && r.Chance(1, 2) {
 				intent = "exclude-" + vC02Aim(r, q, ex)
 			}
-			tk := vC02MakeToken(r, e, cfg, perms, jwksKind == "ok")
+			var force vC02Force
+			if cell != nil {
+				force = vC02Force{iss: cell.iss, aud: cell.aud, verifying: true}
+			}
+			tk := vC02MakeToken(r, e, cfg, perms, jwksKind == "ok", force)
 			known := []vC02Tok{tk}
 			decoy := vPick(r, decoys) + "2"
 			if r.Chance(1, 3) { // a second real token as decoy: a good one where the token under test is bad, and vice versa
-				d2 := vC02MakeToken(r, e, cfg, perms, jwksKind == "ok")
+				d2 := vC02MakeToken(r, e, cfg, perms, jwksKind == "ok", vC02Force{})
 				if d2.s != tk.s {
 					known = append(known, d2)
 					decoy = d2.s
@@ -929,7 +1169,7 @@ func TestVerifC02(t *testing.T) {
 				}
 				seen[c] = true
 				rc := &jwt.RegisteredClaims{}
-				_, err := jwt.ParseWithClaims(c, rc, kf, opts...)
+				_, err := jwt.ParseWithClaims(c, rc, kf) // no option: key, alg, exp/nbf, claim types
 				if err != nil {
 					parseT = append(parseT, cqPair(y.bytes(c), "None"))
 					continue
@@ -956,7 +1196,9 @@ func TestVerifC02(t *testing.T) {
 						}
 					}
 				}
-				parseT = append(parseT, cqPair(y.bytes(c), cqOpt(true, cqPair(cqBytes(rc.Subject), claim))))
+				_, errOpts := jwt.ParseWithClaims(c, &jwt.RegisteredClaims{}, kf, opts...) // the library with the options
+				parseT = append(parseT, cqPair(y.bytes(c), cqOpt(true, cqApp("VC", cqBytes(rc.Subject), cqBytes(rc.Issuer),
+					cqListOf([]string(rc.Audience), func(a string) string { return cqBytes(a) }), claim, cqBool(errOpts == nil)))))
 			}
 			inqCoq := "None"
 			if inq != nil {
@@ -964,7 +1206,8 @@ func TestVerifC02(t *testing.T) {
 			}
 			var dknown []any
 			for _, kt := range known {
-				dknown = append(dknown, map[string]any{"token": kt.s, "kind": kt.kind, "mustVerify": kt.valid, "claimPermissions": kt.perms, "subject": kt.sub})
+				dknown = append(dknown, map[string]any{"token": kt.s, "kind": kt.kind, "mustVerify": kt.valid && kt.issOK && kt.audOK,
+					"verifiesWithoutSettings": kt.valid, "iss": kt.iss, "aud": kt.aud, "claimPermissions": kt.perms, "subject": kt.sub})
 			}
 			d := map[string]any{"kind": "jwt", "exclude": ex, "request": q.desc(), "placement": place, "intent": intent, "jwks": jwksKind,
 				"claimKey": cfg.claimKey, "issuer": cfg.issuer, "audience": cfg.audience, "jwtInHTTPQuery": inq, "tokens": dknown,
@@ -976,8 +1219,12 @@ func TestVerifC02(t *testing.T) {
 			if matchesPermission(ex, q.real()) { // label only
 				class = "jwt-excluded/" + outcome
 			}
+			if cell != nil {
+				class = "jwt-claims/" + cell.cfg + "/" + cell.vary + "/" + outcome
+				d["claimsScenario"] = map[string]any{"settings": cell.cfg, "iss": cell.iss, "aud": cell.aud}
+			}
 			out.Case(y.wrap(cqApp("Jwt", vC02CoqPerms(ex), cqList(rx.items), q.coq(y), q.shape(y), q.realQuery(y), inqCoq, cqBool(jwksKind == "ok" || jwksKind == "empty"),
-				cqList(parseT), cqList(decpT), cqList(decsT), cqListOf(known, func(kt vC02Tok) string { return kt.coq(y) }), obs)),
+				cqBytes(cfg.issuer), cqBytes(cfg.audience), cqList(parseT), cqList(decpT), cqList(decsT), cqListOf(known, func(kt vC02Tok) string { return kt.coq(y) }), obs)),
 				d, class, true)
 		}
 	}
